@@ -82,6 +82,7 @@ PROPS["C02"] = dict(
         J("TestC02_OneMessage", 200, 4000, shards=4),
         J("TestC02_Errors", 300, 10000, shards=1),
         J("TestC02_ManyMessages", 0, 300, shards=2, mode="asan", tiers=("thorough",)),
+        J("cfuzz:MULTI", 3000, 240, kind="cfuzz", target="MULTI"),
     ],
 )
 
@@ -325,7 +326,7 @@ import json as _json
 import os as _os
 
 
-CFUZZ_TARGETS = {"C05": ["SER_E1", "SER_E2", "SER_FR"], "C09": ["SUM_VECTOR", "LAGRANGE", "G2_VECTOR", "VERIFY"]}
+CFUZZ_TARGETS = {"C02": ["MULTI"], "C05": ["SER_E1", "SER_E2", "SER_FR"], "C09": ["SUM_VECTOR", "LAGRANGE", "G2_VECTOR", "VERIFY"]}
 
 
 def _f1_known(verif):
@@ -367,6 +368,6 @@ def custom_replay(pid, path, repo, verif, work, goenv, log):
     return None
 
 NOT_APPLICABLE = {}
-EXTRA_ENGINES = [{"name": "cfuzz-libfuzzer", "path": "/verif/cfuzz", "serves_properties": ["C05", "C09"], "kind_free_text": "libFuzzer targets (clang -fsanitize=fuzzer,address,undefined) compiled against /repo's own C sources with in-target semantic oracles (canonical round trip, BLST ZCash differential, element-wise recomputation); pinned -seed/-runs in the quick tier, time-boxed forks in the thorough tier"},
+EXTRA_ENGINES = [{"name": "cfuzz-libfuzzer", "path": "/verif/cfuzz", "serves_properties": ["C02", "C05", "C09"], "kind_free_text": "libFuzzer targets (clang -fsanitize=fuzzer,address,undefined) compiled against /repo's own C sources with in-target semantic oracles (canonical round trip, BLST ZCash differential, element-wise recomputation); pinned -seed/-runs in the quick tier, time-boxed forks in the thorough tier"},
                  {"name": "overlay-inpackage", "path": "/verif/harness/inpkg", "serves_properties": ["C15"], "kind_free_text": "in-package exhaustive tape enumeration injected with go test -overlay"},
                  {"name": "cfgworker", "path": "/verif/harness/cfgworker", "serves_properties": ["C20"], "kind_free_text": "worker program built in four build configurations, driven by a rapid differential property"}]
